@@ -35,15 +35,27 @@
 (* Abstraction: the drift class of a series persists for one more period (its          *)
 (* dynamics do not jump classes), except that a near-zero value may leave the band     *)
 (* |x| < Z - that is what `stays` records.                                             *)
+(*                                                                                    *)
+(* The exclusion option.  Every series has a NAME, a sequence of characters; the        *)
+(* option ParameterInitialSteadyStateExcludedVariables is a set of names (names of      *)
+(* series, names of their lags, names of nothing at all), to which the code adds 'k'.    *)
+(* The acceptance loop skips a series iff its name IS one of these names; names that    *)
+(* merely occur inside an excluded name (y next to an excluded y_total, LAG_y next to   *)
+(* LAG_y_total) or that contain one are judged.  `excluded` is the set of series the     *)
+(* loop skips; the judged set must be exactly the other series.                        *)
 (* The operators JudgeBad / SteadyClass and the actions are the single source of truth *)
 (* for Steady_Trace.                                                                   *)
 EXTENDS Integers, Sequences, FiniteSets, TLC
 
 CONSTANTS
-    NVarsSet,        \* possible numbers of series of a system, e.g. {1, 2}
-    Grid,            \* sequence: Grid[i] = set of classes series i may end in
-    MaxExcluded,     \* bound on the size of the excluded set
+    Schemes,         \* the systems of the bounded instance: set of records
+                     \*   [id, names : sequence of names (one per series), grid : sequence, grid[i] = set of
+                     \*    classes series i may end in, excls : set of sets of names the user may exclude]
     AllowMalformed,  \* BOOLEAN: also systems that are not well formed (Run may fail with any exception)
+    AsFound_ExclusionBySubstring,
+                     \* TRUE: a seeded variant of the code: the exclusion list is joined into one string, so a
+                     \*       series is skipped as soon as its name occurs INSIDE an excluded name.
+                     \*       FALSE: list membership (the code).
     AsFound_SignedRelativeTest,
                      \* TRUE: the pinned code: err = abs(lastval-prev)/lastval (signed), so a negative
                      \*       value always passes the relative test.  FALSE: divides by the magnitude.
@@ -94,6 +106,22 @@ SteadyClass(c) ==
 ----------------------------------------------------------------------------
 (* the outer solver as far as C15 speaks about it: identities of its equations (parser *)
 (* lists and EquationString), of its exogenous paths and its horizon (MaxTime)         *)
+(* names and the exclusion option *)
+KName     == << "k" >>
+TName     == << "t" >>
+LagPrefix == << "L", "A", "G", "_" >>
+LagOf(nm) == LagPrefix \o nm
+IsSubstr(a, b) == /\ Len(a) <= Len(b)
+                  /\ \E i \in 0..(Len(b) - Len(a)) : SubSeq(b, i + 1, i + Len(a)) = a
+(* what a user who wants the variables `ex` left out writes: their names, the names of their lags, and 't' *)
+OptionOf(ex) == {TName} \cup ex \cup { LagOf(e) : e \in ex }
+IsExcludedName(nm, opt) == nm \in (opt \cup {KName})
+SkipsName(nm, opt) ==
+    IF AsFound_ExclusionBySubstring
+    THEN \E o \in (opt \cup {KName}) : IsSubstr(nm, o)     \* nm in ' '.join(list): names hold no blank
+    ELSE IsExcludedName(nm, opt)
+SkippedSet(nms, opt) == { v \in 1..Len(nms) : SkipsName(nms[v], opt) }
+
 Outer0  == [eq |-> 1, exo |-> 1, hor |-> 1]
 NoCopy  == [eq |-> 0, exo |-> 0, hor |-> 0]
 FrozenExo == 2      \* identity of "every exogenous series constant at its k=0 value"
@@ -102,7 +130,10 @@ SearchHor == 2      \* identity of the search horizon T
 VARIABLES
     phase,      \* "idle" | "copied" | "frozen" | "ran" | "judging" | "installed" | "rejected" | "raised"
     n,          \* number of series of the system
-    excluded,   \* subset of 1..n: ParameterInitialSteadyStateExcludedVariables (and 'k')
+    names,      \* sequence (length n) of the names of the series
+    option,     \* ParameterInitialSteadyStateExcludedVariables: a set of names
+    excluded,   \* subset of 1..n: the series the acceptance loop skips
+    sid,        \* id of the scheme the system was taken from (0: none)
     wf,         \* the system is well formed
     runres,     \* "none" | "ok" | "conv" | "valerr" | "other"
     cls,        \* after Run("ok"): sequence (length n) of classes
@@ -112,31 +143,34 @@ VARIABLES
     outer,      \* snapshot of the solver that is being initialised
     inner       \* the same three identities of the copy the search works on
 
-vars == << phase, n, excluded, wf, runres, cls, judged, bad, exc, outer, inner >>
+sys  == << n, names, option, excluded, wf, sid >>      \* the system and the option: never change
+vars == << phase, sys, runres, cls, judged, bad, exc, outer, inner >>
 
 Min(S) == CHOOSE x \in S : \A y \in S : x <= y
 
-Setup(nn, ex, w) ==
-    /\ phase = "idle" /\ n = nn /\ excluded = ex /\ wf = w
+Setup(nms, opt, w, id) ==
+    /\ phase = "idle" /\ n = Len(nms) /\ names = nms /\ option = opt /\ wf = w /\ sid = id
+    /\ excluded = SkippedSet(nms, opt)
     /\ runres = "none" /\ cls = << >> /\ judged = {} /\ bad = {} /\ exc = ""
     /\ outer = Outer0 /\ inner = NoCopy
 
-Init == \E nn \in NVarsSet, w \in (IF AllowMalformed THEN BOOLEAN ELSE {TRUE}) :
-          \E ex \in { S \in SUBSET (1..nn) : Cardinality(S) <= MaxExcluded } :
-            /\ (~w => (nn = Min(NVarsSet) /\ ex = {}))      \* one malformed system is enough
-            /\ Setup(nn, ex, w)
+MinId == Min({ s.id : s \in Schemes })
+Init == \E s \in Schemes, w \in (IF AllowMalformed THEN BOOLEAN ELSE {TRUE}) :
+          \E ex \in s.excls :
+            /\ (~w => (s.id = MinId /\ ex = {}))      \* one malformed system is enough
+            /\ Setup(s.names, OptionOf(ex), w, s.id)
 
 Copy ==
     /\ phase = "idle"
     /\ phase' = "copied"
     /\ inner' = outer
-    /\ UNCHANGED << n, excluded, wf, runres, cls, judged, bad, exc, outer >>
+    /\ UNCHANGED << sys, runres, cls, judged, bad, exc, outer >>
 
 FreezeExogenous ==
     /\ phase = "copied"
     /\ phase' = "frozen"
     /\ inner' = [inner EXCEPT !.exo = FrozenExo, !.hor = SearchHor]
-    /\ UNCHANGED << n, excluded, wf, runres, cls, judged, bad, exc, outer >>
+    /\ UNCHANGED << sys, runres, cls, judged, bad, exc, outer >>
 
 Run(res, c) ==
     /\ phase = "frozen"
@@ -147,7 +181,7 @@ Run(res, c) ==
     /\ phase' = "ran"
     /\ runres' = res
     /\ cls' = c
-    /\ UNCHANGED << n, excluded, wf, judged, bad, exc, outer, inner >>
+    /\ UNCHANGED << sys, judged, bad, exc, outer, inner >>
 
 ToJudge == ((1..n) \ excluded) \ judged
 
@@ -159,7 +193,7 @@ Judge(v) ==
     /\ phase' = "judging"
     /\ judged' = judged \cup {v}
     /\ bad' = IF JudgeBad(cls[v]) THEN bad \cup {v} ELSE bad
-    /\ UNCHANGED << n, excluded, wf, runres, cls, exc, outer, inner >>
+    /\ UNCHANGED << sys, runres, cls, exc, outer, inner >>
 
 Install ==
     /\ phase \in {"ran", "judging"}
@@ -167,7 +201,7 @@ Install ==
     /\ ToJudge = {}
     /\ bad = {}
     /\ phase' = "installed"
-    /\ UNCHANGED << n, excluded, wf, runres, cls, judged, bad, exc, outer, inner >>
+    /\ UNCHANGED << sys, runres, cls, judged, bad, exc, outer, inner >>
 
 Reject ==
     /\ phase \in {"ran", "judging"}
@@ -176,17 +210,19 @@ Reject ==
     /\ bad # {}
     /\ phase' = "rejected"
     /\ exc' = "NoEquilibriumError"
-    /\ UNCHANGED << n, excluded, wf, runres, cls, judged, bad, outer, inner >>
+    /\ UNCHANGED << sys, runres, cls, judged, bad, outer, inner >>
 
 Raise ==
     /\ phase = "ran"
     /\ runres \in {"conv", "valerr", "other"}
     /\ phase' = "raised"
     /\ exc' = IF runres = "other" THEN "other" ELSE "ValueError"
-    /\ UNCHANGED << n, excluded, wf, runres, cls, judged, bad, outer, inner >>
+    /\ UNCHANGED << sys, runres, cls, judged, bad, outer, inner >>
 
 (* the class sequences of the bounded instance (n <= 3) *)
+GridOf(id) == (CHOOSE s \in Schemes : s.id = id).grid
 ClassSeqs(nn) ==
+    LET Grid == GridOf(sid) IN
     CASE nn = 1 -> { << a >> : a \in Grid[1] }
       [] nn = 2 -> { << a, b >> : a \in Grid[1], b \in Grid[2] }
       [] nn = 3 -> { << a, b, c >> : a \in Grid[1], b \in Grid[2], c \in Grid[3] }
@@ -208,8 +244,15 @@ Terminal == phase \in {"installed", "rejected", "raised"}
 
 ----------------------------------------------------------------------------
 (* C15 *)
+NonExcluded == { v \in 1..n : ~IsExcludedName(names[v], option) }
+
+(* every series that is not on the exclusion list has been judged (and thereby installed) and is steady *)
 C15_AcceptedIsSteady ==
-    phase = "installed" => \A v \in (1..n) \ excluded : SteadyClass(cls[v])
+    phase = "installed" => \A v \in NonExcluded : (v \in judged /\ SteadyClass(cls[v]))
+
+(* the judged set is exactly the set of non-excluded series *)
+C15_JudgesExactlyNonExcluded ==
+    phase \in {"installed", "rejected"} => judged = NonExcluded
 
 C15_OtherwiseRaises ==
     (Terminal /\ phase # "installed" /\ wf) => exc \in {"NoEquilibriumError", "ValueError"}
@@ -219,7 +262,7 @@ C15_LeavesSolverUntouched == [][outer' = outer]_vars
 
 TypeOK ==
     /\ phase \in {"idle", "copied", "frozen", "ran", "judging", "installed", "rejected", "raised"}
-    /\ n \in NVarsSet
+    /\ n = Len(names)
     /\ excluded \subseteq 1..n
     /\ runres \in {"none", "ok", "conv", "valerr", "other"}
     /\ (runres = "ok") => (Len(cls) = n /\ \A i \in 1..n : cls[i] \in AllClasses)
